@@ -1362,13 +1362,20 @@ fn find_item<'f>(file: &'f File, src: &str, sel: &str) -> Option<Found<'f>> {
                 if itr != tr {
                     continue;
                 }
+                let mut assoc = vec![];
+                for ii in &im.items {
+                    if let ImplItem::Type(t) = ii {
+                        let (a, b) = rng(t.ty.span());
+                        assoc.push((t.ident.to_string(), src[a..b].to_string()));
+                    }
+                }
                 for ii in &im.items {
                     if let ImplItem::Fn(f) = ii {
                         if f.sig.ident == fnn.trim() {
                             return Some(Found {
                                 container: header_of(im.impl_token.span(), im.brace_token.span.open()),
-                                assoc: vec![],
-                        kind: if tr.is_some() { "trait-impl" } else { "impl" },
+                                assoc: assoc.clone(),
+                                kind: if tr.is_some() { "trait-impl" } else { "impl" },
                                 item: FoundItem::Fn(&f.sig, Some(&f.block), f.span()),
                             });
                         }
